@@ -80,6 +80,13 @@ Fixpoint for_zip_enum {A B S : Type} (body : Z -> A -> B -> S -> res S) (la : li
   | _, _ => Ok s
   end.
 
+(* `loop { body }`: the body returns whether to go on (continue / fall off the end) or stop (break), with the loop variables *)
+Fixpoint loop_fuel {S : Type} (fuel : nat) (body : S -> res (bool * S)) (s : S) : res S :=
+  match fuel with
+  | O => OutOfFuel
+  | S f => let* (go_on, s') := body s in if go_on then loop_fuel f body s' else Ok s'
+  end.
+
 (* `&v[from..]`: panics when `from` is past the end *)
 Definition slice_from {A} (l : list A) (from : Z) : res (list A) :=
   if (0 <=? from) && (from <=? zlength l) then Ok (skipn (Z.to_nat from) l) else Panic PIndex.
